@@ -543,6 +543,13 @@ func (c *SKConditionImpl) convertToRPNElem(rpnExpr *rpn.RPNExpr) error {
 			if !ok {
 				return errno.NewError(errno.ErrRPNElemOp)
 			}
+			// the skip-index readers behind SKCondition (bloom filter, full text, text) answer
+			// "can the block contain the literal": only an equality or a phrase match follows
+			// from that. Any other comparison (!=, <, <=, >, >=, like, match) is unknown.
+			if op != influxql.EQ && op != influxql.MATCHPHRASE && op != influxql.IPINRANGE {
+				c.rpn = append(c.rpn, &rpn.SKRPNElement{RPNOp: rpn.AlwaysTrue})
+				continue
+			}
 			if err := c.genRPNElementByVal(v.Val, value, op); err != nil {
 				return err
 			}
